@@ -87,6 +87,14 @@ pub fn vx_tail<'a, T>(x: &'a Array1<T>, from: usize) -> (r: ArrayView1<'a, T>)
     ensures r.sv() == x.sv().subrange(from as int, x.sv().len() as int),
 { unimplemented!() }
 
+/// the same slice taken from a view
+pub open spec fn vcol_tail_seq<T>(a: ArrayView2<T>, from: int, col: int) -> Seq<T> { Seq::new((a.nr() - from) as nat, |m: int| a.at(from + m, col)) }
+#[verifier::external_body]
+pub fn vx_vcol_tail<'a, T>(a: &'a ArrayView2<'_, T>, from: usize, col: usize) -> (r: ArrayView1<'a, T>)
+    requires from <= a.nr(), col < a.nc(),
+    ensures r.sv() == vcol_tail_seq(*a, from as int, col as int),
+{ unimplemented!() }
+
 /// `a.slice(s![from.., col])`: column `col` from row `from` on
 #[verifier::external_body]
 pub fn vx_col_tail<'a, T>(a: &'a Array2<T>, from: usize, col: usize) -> (r: ArrayView1<'a, T>)
